@@ -19,6 +19,9 @@ sys.dont_write_bytecode = True
 
 for m in [x for x in os.environ.get("VERIF_PREIMPORT", "").split(",") if x]:
     __import__(m)
+if os.environ.get("VERIF_CHILD_LOG"):
+    import logging
+    logging.basicConfig(level=getattr(logging, os.environ["VERIF_CHILD_LOG"]), stream=sys.stderr)
 
 REPO = os.environ.get("VERIF_REPO", "/repo")
 sys.path.insert(0, REPO)
@@ -68,6 +71,13 @@ def corpus(seed, n):
         else:
             v = {"signatures": {}, "signed": gen.gen_payload(rng, True)}
         out.append(v)
+    # repodata-sized values: canonical text on both sides of 64 KiB / 128 KiB / 1 MiB boundaries
+    for target in (rng.choice([66000, 70000, 131500]), rng.choice([200000, 1100000])):
+        pk = {}
+        while len(pk) * 150 < target:
+            pk["pkg%d-%d.%d-%d.tar.bz2" % (len(pk), rng.randint(0, 9), rng.randint(0, 99), rng.randint(0, 3))] = {
+                "sha256": "%064x" % rng.getrandbits(256), "size": rng.randint(1, 10**8), "depends": ["python"]}
+        out.append({"info": {"subdir": "noarch"}, "packages": pk})
     return out
 
 
